@@ -56,6 +56,7 @@ theorem good_applyAct (c : Conn) (v : Verb) (n : Nat) (a : Act) (h : Good c) : G
   | stall => exact good_waitSilent _ (good_of_eq c _ h rfl rfl)
   | garbage => exact good_ev c _ h (by simp)
   | tlsBad => exact good_ev c _ h (by simp)
+  | deaf => exact good_of_eq _ _ (good_replied c v n _ _ h) rfl rfl
 
 theorem good_serverTurn (c : Conn) (v : Verb) (n : Nat) (h : Good c) : Good (c.serverTurn v n).1 := by
   unfold Conn.serverTurn
@@ -322,17 +323,21 @@ theorem good_sendOne (cfg : SendCfg) (c : Conn) (idx : Nat) (m : MsgIn) (wd : Bo
               simp only []
               split
               · exact good_close _ (good_ev c5 _ h6 (by simp))
-              · have h7 := good_endData _ (good_ev c5 (.content idx true) h6 (by simp))
-                rcases he : (c5.ev (.content idx true)).endData with ⟨c6, e6⟩
-                rw [he] at h7
-                cases e6 with
-                | some e => exact h7
-                | none =>
-                  simp only []
-                  have h8 := good_resetWith cfg c6 h7
-                  rcases hw : resetWith cfg c6 with ⟨c7, e7⟩
-                  rw [hw] at h8
-                  cases e7 <;> exact h8
+              · split
+                · -- the blocked content write: a wait under the armed deadline
+                  exact good_close _ (good_ev _ _ (good_ev c5 _ h6 (by simp)) (by rw [h6.1]; simp))
+                · skip
+                  have h7 := good_endData _ (good_ev c5 (.content idx true) h6 (by simp))
+                  rcases he : (c5.ev (.content idx true)).endData with ⟨c6, e6⟩
+                  rw [he] at h7
+                  cases e6 with
+                  | some e => exact h7
+                  | none =>
+                    simp only []
+                    have h8 := good_resetWith cfg c6 h7
+                    rcases hw : resetWith cfg c6 with ⟨c7, e7⟩
+                    rw [hw] at h8
+                    cases e7 <;> exact h8
 
 end GoMail.Smtp
 
